@@ -559,6 +559,16 @@ def _r3_processing(run, st, put, k, it, caller, serial_func, sres, sk):
         return ("call", c[1], tuple(a for a in c[2] if "progress" not in sym.show(a)), tuple((k_, v_) for k_, v_ in c[3] if "progress" not in k_ and "progress" not in sym.show(v_)))
     if t != S and without_progress(t) == without_progress(S):
         t = S
+
+    def without_extra_callbacks(c, other):
+        # an optional callback (a lambda / local closure handed by keyword) that only one of the two callers passes - the serial
+        # path reporting progress per item through `on_item_done=lambda: progress.update(1)` - is not part of the work either
+        if c[0] != "call" or other[0] != "call":
+            return c
+        other_kw = {k_ for k_, _v in other[3]}
+        return ("call", c[1], c[2], tuple((k_, v_) for k_, v_ in c[3] if not (k_ not in other_kw and (v_[0] == "lambda" or (v_[0] == "sym" and str(v_[1]).startswith("<closure"))))))
+    if t != S and without_extra_callbacks(without_progress(t), S) == without_extra_callbacks(without_progress(S), t):
+        t = S
     if t == S:
         run.holds("C03.R2", w, x.node, "worker processes a received item exactly as the serial sibling does: %s" % sym.show(S)[:120], stage=st.name)
     else:
